@@ -246,6 +246,105 @@ def check_consumers(shape):
     return fails
 
 
+# ---- calls of functions defined in the module: a call statement is pointless only if running the callee does nothing observable
+CALLEE_PREFIX = [[], ["x = 1"], ["obs(0)"], ["if u1:", "    return 5"]]
+CALLEE_LAST = [
+    ["return 1"], ["return obs(1)"], ["return [obs(1) for a in [1]]"], ["raise E()"], ["assert u1"], ["pass"], ["obs(1)"],
+    ["if u1:", "    obs(1)", "    return 1", "else:", "    return 2"], ["if u1:", "    return 1", "else:", "    obs(1)", "    return 2"],
+    ["if u1:", "    return 1", "else:", "    raise E()"], ["if u1:", "    return 1", "raise E()"], ["if u1:", "    return 1", "else:", "    return 2"],
+    ["while True:", "    obs(1)", "    if u1:", "        return 1", "    return 2"], ["while True:", "    return obs(1)"], ["while True:", "    raise E()"],
+    ["for v in [1]:", "    obs(1)", "    return 1"], ["for v in [1, 2]:", "    raise E()"], ["for v in enumerate(()):", "    return 1", "obs(1)"],
+    ["try:", "    return 1", "finally:", "    obs(1)"], ["try:", "    raise E()", "except E:", "    obs(1)", "    return 2"], ["try:", "    return 1", "except E:", "    return 2"],
+    ["with ctx:", "    obs(1)", "    return 1"], ["with ctx:", "    return 1"], ["with sup:", "    raise E()"],
+    ["def g():", "    obs(1)", "g()", "return 1"], ["def g():", "    obs(1)", "return g"], ["yield obs(1)"], ["return (lambda: obs(1))()"], ["return lambda: obs(1)"],
+    ["if u1:", "    assert not u1", "    return 1", "else:", "    return 2"],
+]
+CALL_FORMS = ["h(u1, obs, ctx, sup, E)", "y = h(u1, obs, ctx, sup, E)", "[h(u1, obs, ctx, sup, E) for a in [1]]", "h(u1, obs, ctx, sup, E) if u2 else 0", "K(u1, obs, ctx, sup, E)", "K(u1, obs, ctx, sup, E).m"]
+
+
+def callee_programs():
+    out = []
+    for pre in CALLEE_PREFIX:
+        for last in CALLEE_LAST:
+            body = ind(pre + last)
+            returns_value = any(ln.strip().startswith("return ") for ln in pre + last) or any(ln.strip().startswith("yield") for ln in last)
+            for call in CALL_FORMS:
+                if call.startswith("K("):
+                    if returns_value:
+                        continue   # __init__ must return None
+                    head = ["class K:", "    m = 3", "", "    def __init__(self, u1, obs, ctx, sup, E):"] + ind(body)
+                else:
+                    head = ["def h(u1, obs, ctx, sup, E):"] + body
+                out.append("\n".join(head + ["", "", "def f(u1, u2, it, obs, ctx, sup, E):", "    " + call, "    obs('F')", "    return 'end'"]) + "\n")
+    return out + CALLEE_EXTRA
+
+
+F_HEAD = "def f(u1, u2, it, obs, ctx, sup, E):\n"
+F_TAIL = "    obs('F')\n    return 'end'\n"
+CALLEE_EXTRA = [
+    # the name that is called is not (only) the harmless function that carries it
+    "def deco(fn):\n    def wrapper(u1, obs):\n        obs('D')\n        return fn(u1, obs)\n\n    return wrapper\n\n\n@deco\ndef h(u1, obs):\n    return u1\n\n\n" + F_HEAD + "    h(u1, obs)\n" + F_TAIL,
+    "def h(x):\n    return 1\n\n\n" + F_HEAD + "    def inner(h):\n        h(3)\n        return 2\n\n    inner(obs)\n" + F_TAIL,
+    "def h(x):\n    return 1\n\n\n" + F_HEAD + "    inner = lambda h: [h(3), 2]\n    inner(obs)\n" + F_TAIL,
+    "def h(obs):\n    return 1\n\n\n" + F_HEAD + "    h(obs)\n" + F_TAIL + "\n\ndef h(obs):\n    obs(2)\n",
+    "import sys\n\n\ndef h(obs):\n    return 1\n\n\nif len(sys.argv) >= 0:\n    def h(obs):\n        obs(2)\n\n\n" + F_HEAD + "    h(obs)\n" + F_TAIL,
+    "def h(obs):\n    return 1\n\n\n" + F_HEAD + "    h = obs\n    h(4)\n" + F_TAIL,
+    "def h(obs):\n    return 1\n\n\n" + F_HEAD + "    for h in [obs]:\n        h(4)\n" + F_TAIL,
+    "def h(obs):\n    return 1\n\n\n" + F_HEAD + "    try:\n        raise E(obs)\n    except E as h:\n        h.args[0](4)\n" + F_TAIL,
+    "class Base:\n    def __init__(self, obs):\n        obs(1)\n\n\nclass K(Base):\n    pass\n\n\n" + F_HEAD + "    K(obs)\n" + F_TAIL,
+    "class Meta(type):\n    def __call__(cls, obs):\n        obs(1)\n\n\nclass K(metaclass=Meta):\n    pass\n\n\n" + F_HEAD + "    K(obs)\n" + F_TAIL,
+    "def deco(cls):\n    def make(obs):\n        obs(1)\n        return cls()\n\n    return make\n\n\n@deco\nclass K:\n    pass\n\n\n" + F_HEAD + "    K(obs)\n" + F_TAIL,
+    "class K:\n    def __new__(cls, obs):\n        obs(1)\n        return super().__new__(cls)\n\n\n" + F_HEAD + "    K(obs)\n" + F_TAIL,
+    "class K:\n    x = 1\n\n    def __post_init__(self):\n        raise E()\n\n\n" + F_HEAD + "    K()\n" + F_TAIL,
+    "class K:\n    def h(self, obs):\n        obs(1)\n\n\ndef h(k, obs):\n    return 1\n\n\n" + F_HEAD + "    K().h(obs)\n    h(1, obs)\n" + F_TAIL,
+]
+
+CALLEE_CONSUMERS = ["fixes.delete_pointless_statements", "fixes.undefine_unused_variables", "format_code"]
+
+
+def check_callees(prog):
+    import importlib
+    import pyrefact
+    from pyrefact import logs
+    logs.set_level(100)
+    try:
+        ast.parse(prog)
+    except SyntaxError:
+        return []
+    want = None
+    fails = []
+    for cn in CALLEE_CONSUMERS:
+        try:
+            if cn == "format_code":
+                out = pyrefact.format_code(prog, preserve={"f"})
+            else:
+                mod, fn = cn.split(".")
+                out = getattr(importlib.import_module("pyrefact." + mod), fn)(prog)
+        except BaseException as ex:  # noqa: BLE001
+            fails.append({"cls": f"{cn}:raises:{type(ex).__name__}", "what": f"{cn} raised {type(ex).__name__}: {str(ex)[:80]}", "shape": prog})
+            continue
+        if out == prog:
+            continue
+        if want is None:
+            want = [execute(prog, *v) for v in VALUATIONS[:4]]
+        for v, w in zip(VALUATIONS[:4], want):
+            if w is None:
+                continue
+            got = execute(out, *v)
+            if got is None:
+                got = "no-result-within-fuel"
+            if got != w:
+                sup = ":with-suppressing-manager" if "with sup:" in prog else ""
+                fails.append({"cls": f"{cn}:callee-behaviour{sup}", "what": f"{cn}: with u1={v[0]} u2={v[1]} the program gave {w} before and {got} after", "shape": prog, "output": out})
+                break
+    return fails
+
+
+def _w4(x):
+    r = _w(check_callees)(x)
+    return r if isinstance(r, list) else [r]
+
+
 def _w(fn):
     def inner(x):
         try:
@@ -285,6 +384,8 @@ def run(tier, seed):
         r1 = pool.map(_w1, shapes, chunksize=50)
         r2 = pool.map(_w2, stmts, chunksize=4)
         r3 = pool.map(_w3, cons_shapes, chunksize=5)
+        callees = callee_programs()
+        r4 = pool.map(_w4, callees, chunksize=5)
     out = []
     for name, fn_desc, contract, inputs, results, space in (
         ("c16-is-blocking-executed", "core.is_blocking", "is_blocking(s) => the follower is unreachable for every valuation", shapes, [[r] for r in r1],
@@ -293,6 +394,9 @@ def run(tier, seed):
          f"{len(EXPRS)} expression statements (calls inside comprehensions, conditional expressions, f-strings, slices, lambda defaults, starred/dict unpacking, call-of-call) and {len(STMTS)} statement forms"),
         ("c16-consumers-executed", ", ".join(CONSUMERS), "same trace and outcome before and after, for every valuation", cons_shapes, r3,
          f"{len(cons_shapes)} of the shapes above (seeded sample) x {len(CONSUMERS)} consumers x {len(VALUATIONS)} valuations"),
+        ("c16-callees-executed", ", ".join(CALLEE_CONSUMERS) + " (parsing.safe_callable_names)", "same trace and outcome before and after, for every valuation", callees, r4,
+         f"{len(CALLEE_PREFIX)} prefixes x {len(CALLEE_LAST)} final statements of a module-level function or an __init__ (always-returning if/else, loops, try/finally, with, nested def, generator, lambda) x {len(CALL_FORMS)} call forms "
+         f"whose result is unused x {len(CALLEE_CONSUMERS)} consumers x 4 valuations"),
     ):
         fl, errs, nontriv = [], [], 0
         for inp, rs in zip(inputs, results):
